@@ -455,11 +455,11 @@ type fakeConn struct {
 	open func(ctx context.Context, c *fakeConn) (network.Stream, error)
 }
 
-func (c *fakeConn) Close() error                              { c.net.shut(c, true); return nil }
+func (c *fakeConn) Close() error                               { c.net.shut(c, true); return nil }
 func (c *fakeConn) CloseWithError(network.ConnErrorCode) error { return c.Close() }
-func (c *fakeConn) LocalPeer() peer.ID                        { return c.local }
-func (c *fakeConn) RemotePeer() peer.ID                       { return c.remote }
-func (c *fakeConn) RemotePublicKey() ic.PubKey                { return c.remoteKey }
+func (c *fakeConn) LocalPeer() peer.ID                         { return c.local }
+func (c *fakeConn) RemotePeer() peer.ID                        { return c.remote }
+func (c *fakeConn) RemotePublicKey() ic.PubKey                 { return c.remoteKey }
 func (c *fakeConn) ConnState() network.ConnectionState {
 	return network.ConnectionState{StreamMultiplexer: "/yamux/1.0.0", Security: "/noise", Transport: "tcp"}
 }
@@ -534,9 +534,11 @@ func (s *fakeStream) Protocol() protocol.ID {
 	return ""
 }
 func (s *fakeStream) SetProtocol(id protocol.ID) error { s.proto.Store(id); return nil }
-func (s *fakeStream) Stat() network.Stats              { return network.Stats{Direction: s.dir, Limited: s.conn.limited} }
-func (s *fakeStream) Conn() network.Conn               { return s.conn }
-func (s *fakeStream) Scope() network.StreamScope       { return &network.NullScope{} }
+func (s *fakeStream) Stat() network.Stats {
+	return network.Stats{Direction: s.dir, Limited: s.conn.limited}
+}
+func (s *fakeStream) Conn() network.Conn         { return s.conn }
+func (s *fakeStream) Scope() network.StreamScope { return &network.NullScope{} }
 
 var (
 	_ network.Conn    = (*fakeConn)(nil)
